@@ -409,6 +409,56 @@ func areaInstance(r *Rng, n int, dir string) (*AreaOut, error) {
 				return nil
 			})
 		}
+		if native && r.Chance(10) {
+			// a native entry the application flagged deleted while leaving bytes after the header: part of the image
+			// exactly as stored
+			_ = env.Update(func(txn *lmdb.Txn) error {
+				dbi, err := txn.OpenDBI("app", lmdb.Create)
+				if err != nil {
+					return err
+				}
+				return txn.Put(dbi, []byte("ghost"), mkStored(clock-3000, 1, 1, 0, []byte("left-behind")), 0)
+			})
+		}
+		if r.Chance(7) {
+			// values that do not fit the iterators' first buffer (1 kB)
+			big := pick(r, []int{1500, 2048})
+			clock += 1000
+			setClock(clock)
+			_ = applyApp(env, native, clock, []appOp{{DBI: "app", Key: []byte("a"), Val: []byte("small")}})
+			clock += 1000
+			setClock(clock)
+			_, _ = sy.SendOnce(ctx, env)
+			clock += 1000
+			setClock(clock)
+			// ... written right after a deletion in the same application transaction
+			_ = applyApp(env, native, clock, []appOp{{DBI: "app", Key: []byte("a"), Del: true}, {DBI: "app", Key: []byte("big"), Val: bytes.Repeat([]byte{'B'}, big)}})
+			hist(out.Hist, "values-over-1kB")
+		}
+		oldLiveDeleted := false
+		if sweep && !native && r.Chance(50) {
+			// shadow mode with the sweeper configured: an entry captured long ago (older than the retention period),
+			// which the application now deletes: the deletion is captured as a marker stamped NOW like any other
+			_ = env.Update(func(txn *lmdb.Txn) error {
+				a, err := txn.OpenDBI("app", lmdb.Create)
+				if err != nil {
+					return err
+				}
+				sh, err := txn.OpenDBI(shadowPrefix+"app", lmdb.Create)
+				if err != nil {
+					return err
+				}
+				if err := txn.Put(sh, []byte("zlive-old"), mkStored(clock-uint64(72*time.Hour), 1, 0, 0, []byte("kept-for-days")), 0); err != nil {
+					return err
+				}
+				if r.Chance(30) { // ... or still has
+					return txn.Put(a, []byte("zlive-old"), []byte("kept-for-days"), 0)
+				}
+				oldLiveDeleted = true
+				return nil
+			})
+		}
+		_ = oldLiveDeleted
 		if !native && r.Chance(10) { // an application DBI that has no shadow yet
 			_ = applyApp(env, false, clock, []appOp{{DBI: "late", Key: []byte("k"), Val: []byte("v")}})
 		}
@@ -635,6 +685,8 @@ func areaInstance(r *Rng, n int, dir string) (*AreaOut, error) {
 					if r.Chance(80) {
 						e.Value = nil
 					}
+				} else if name != "dup" && r.Chance(4) {
+					e.Value = bytes.Repeat([]byte{'R'}, pick(r, []int{1100, 2048})) // larger than the iterator's first buffer
 				}
 				d.Entries = append(d.Entries, e)
 			}
@@ -955,6 +1007,9 @@ func areaInstance(r *Rng, n int, dir string) (*AreaOut, error) {
 	}
 	syncer.VerifSetClock(nil)
 	eofValueProbe(out, dir)
+	if err := boundarySizesSend(out); err != nil {
+		return nil, err
+	}
 	out.Cases = len(cases)
 	out.Distinct = len(nontriv)
 	for i := 0; i < 3 && i < len(cases); i++ {
